@@ -15,8 +15,8 @@ import (
 // burstT: one caller whose matcher is slow (it takes S of virtual time per datagram), and a burst of same-transaction
 // datagrams that arrive back to back: Pre datagrams of a type the matcher rejects, then two acceptable ones.  The
 // per-transaction buffer fills up and the receive loop has to wait for the caller, for as long as the caller needs.
-// C11's clause: the call returns with the response as soon as an acceptable one arrives, also when it arrives behind a
-// burst that fills the transaction's buffer (the same scenario decides "first acceptable in arrival order" in C10).
+// Property: the matcher is shown the datagrams in arrival order without a gap and the call returns the first
+// acceptable one.
 type burstT struct {
 	Burst bool          `json:"burst"`
 	Fam   string        `json:"fam"`
@@ -35,6 +35,10 @@ func judgeBurst(r *mon.Rec, t *testing.T, b burstT) {
 	var err error
 	var at time.Duration
 	returned := false
+	var fGot, follow bool
+	var fErr error
+	var fNonce int
+	var fAt time.Duration
 	pan, val, st := mon.Guard(func() {
 		synctest.Test(t, func(t *testing.T) {
 			conn := sconn.New(0)
@@ -43,7 +47,7 @@ func judgeBurst(r *mon.Rec, t *testing.T, b burstT) {
 				t.Fatal(e)
 			}
 			start := time.Now()
-			const xid = 7
+			const xid = uint32(7)
 			accept := f.AcceptType()
 			m := func(rp cli.Resp) bool {
 				if rp.Nil {
@@ -77,7 +81,31 @@ func judgeBurst(r *mon.Rec, t *testing.T, b burstT) {
 			}()
 			time.Sleep(time.Duration(b.Pre+4)*b.S + time.Second)
 			synctest.Wait()
-			c.Close()
+			// afterwards the client is a client like before: a second call (alone on the client, another transaction id)
+			// gets the reply that arrives for it
+			if returned {
+				fdone := make(chan struct{})
+				fstart := time.Now()
+				go func() {
+					defer close(fdone)
+					var rp cli.Resp
+					rp, fGot, fErr = c.SendAndRead(context.Background(), dest, f.Request(xid+1, 0), func(rp cli.Resp) bool { return !rp.Nil && rp.Type == accept })
+					fNonce = rp.Nonce
+					fAt = time.Since(fstart)
+				}()
+				synctest.Wait()
+				time.Sleep(time.Second)
+				synctest.Wait()
+				conn.Inject(sconn.Datagram{B: f.Datagram("matching", xid+1, 900, accept), From: dest, Nonce: 900, Class: "matching"})
+				synctest.Wait()
+				time.Sleep(2 * time.Hour) // beyond the client's single try
+				synctest.Wait()
+				follow = true
+				c.Close()
+				<-fdone
+			} else {
+				c.Close()
+			}
 			<-fed
 			<-done
 		})
@@ -109,6 +137,10 @@ func judgeBurst(r *mon.Rec, t *testing.T, b burstT) {
 	}
 	if want := time.Duration(b.Pre+1) * b.S; at != want {
 		bad("return-instant", "the call returned at %v, the matcher was done with datagram %d at %v", at, b.Pre+1, want)
+		return
+	}
+	if follow && (fErr != nil || !fGot || fNonce != 900 || fAt != time.Second) {
+		bad("followup-call", "a second call on the same client after the burst (alone, another transaction id, its reply injected 1 s after its start) returned nonce=%d msg=%v err=%v at %v", fNonce, fGot, fErr, fAt)
 		return
 	}
 	r.Shape(fmt.Sprintf("burst/%s/%v/%d", b.Fam, b.S, b.Pre), b.Pre >= 5)
